@@ -67,6 +67,17 @@ def follow(ctx, rule, fn, types, extra=None):
                 if r:
                     return True
                 continue
+            if any(isinstance(n, ast.IfExp) and (dispatchy(n.test) or extra is not None and extra(n.test) is not None) for n in ast.walk(s)):
+                # a conditional expression decided by the scenario: keep the selected operand
+                import copy as _copy
+
+                class _Pick(ast.NodeTransformer):
+                    def visit_IfExp(self, n):
+                        if dispatchy(n.test) or extra is not None and extra(n.test) is not None:
+                            return self.visit(n.body if decide(n.test) else n.orelse)
+                        return self.generic_visit(n)
+
+                s = ast.fix_missing_locations(_Pick().visit(_copy.deepcopy(s)))
             out.stmts.append(s)
             if isinstance(s, ast.Return):
                 out.exit, out.value = "return", s.value
